@@ -274,33 +274,38 @@ Definition held_shape (i : vinfo) (inner_nil : bool) : shape :=   (* the dynamic
 Definition call_result_ok (f : func) (r : env) (v : nat) (cr : callres) (sh : shape) : Prop :=
   wf_shape (vi f v) sh = true /\
   match cr with
-  | RBuiltin BAppend a => r a = Some SNon -> sh = SNon
-  | RBuiltin BCopy0 a => exists sa, r a = Some sa /\ outer_nil sh = outer_nil sa
+  (* append, unsafe.Slice, unsafe.SliceData, unsafe.StringData, unsafe.Add return slices / pointers, not interfaces *)
+  | RBuiltin BAppend a => v_iface (vi f v) = false /\ exists sa, r a = Some sa /\ (outer_nil sa = false -> sh = SNon)
+  | RBuiltin BCopy0 a => v_iface (vi f v) = false /\ exists sa, r a = Some sa /\ outer_nil sh = outer_nil sa
   | RBuiltin BNever _ => sh = SNon
-  | RBuiltin BMaybe _ | RBuiltin BRecover _ => True
+  | RBuiltin BMaybe _ => v_iface (vi f v) = false
+  | RBuiltin BRecover _ => True
   | RFact (Some x) ifc => ptr f v = true -> gamma (normalize x ifc) sh = true     (* assume: the callee honours its fact *)
   | RFact None _ | RDynamic => True
   end.
 
 (* one instruction; no rule = panic, blocking forever, or not executed on this edge *)
 Inductive exec (f : func) (tobranch : option bool) : env -> instr -> env -> Prop :=
-| E_convert_int r v x sh : wf_shape (vi f v) sh = true -> exec f tobranch r (IConvert v x true) (eset r v sh)
+| E_convert_int r v x sh : wf_shape (vi f v) sh = true -> v_iface (vi f v) = false ->
+    exec f tobranch r (IConvert v x true) (eset r v sh)
 | E_convert_ptr r v x sx : r x = Some sx -> ptr f x = true ->
     exec f tobranch r (IConvert v x false) (eset r v (if ptr f v then sx else SNon))
 | E_convert_val r v x : ptr f x = false -> exec f tobranch r (IConvert v x false) (eset r v SNon)   (* string -> []byte *)
 | E_copy r v x sx : r x = Some sx -> exec f tobranch r (ICopy v x) (eset r v (if ptr f v then sx else SNon))
 | E_s2ap_nz r v x : r x = Some SNon -> exec f tobranch r (IS2AP v x true) (eset r v SNon)
-| E_s2ap_z r v x sx : r x = Some sx -> exec f tobranch r (IS2AP v x false) (eset r v sx)
-| E_s2a_nz r v x : r x = Some SNon -> exec f tobranch r (IS2A v x true) (eset r v SNon)
-| E_s2a_z r v x : exec f tobranch r (IS2A v x false) (eset r v SNon)
+| E_s2ap_z r v x sx : r x = Some sx -> exec f tobranch r (IS2AP v x false) (eset r v (if ptr f v then sx else SNon))
+| E_s2a_nz r v x : r x = Some SNon -> ptr f v = false -> exec f tobranch r (IS2A v x true) (eset r v SNon)
+| E_s2a_z r v x : ptr f v = false -> exec f tobranch r (IS2A v x false) (eset r v SNon)
 | E_slice_arr r v x xk nz : exec f tobranch r (ISlice v x xk true nz) (eset r v SNon)
 | E_slice_nz r v x xk : r x = Some SNon -> exec f tobranch r (ISlice v x xk false true) (eset r v SNon)
-| E_slice_slice r v x sx : r x = Some sx -> exec f tobranch r (ISlice v x XSlice false false) (eset r v sx)
+| E_slice_slice r v x sx : r x = Some sx ->
+    exec f tobranch r (ISlice v x XSlice false false) (eset r v (if ptr f v then sx else SNon))
 | E_slice_arrptr r v x : r x = Some SNon -> exec f tobranch r (ISlice v x XArrPtr false false) (eset r v SNon)
 | E_slice_string r v x : ptr f v = false -> exec f tobranch r (ISlice v x XString false false) (eset r v SNon)
 | E_if r tgt eql first sh : tobranch = Some first -> r tgt = Some sh ->
     outer_nil sh = (if first then eql else negb eql) -> exec f tobranch r (IIf tgt eql) r
-| E_load r v x glob sh : r x = Some SNon -> wf_shape (vi f v) sh = true -> exec f tobranch r (ILoad v x glob) (eset r v sh)
+| E_load r v x glob sh : r x = Some SNon -> v <> x -> wf_shape (vi f v) sh = true ->
+    exec f tobranch r (ILoad v x glob) (eset r v sh)
 | E_addr r v x : r x = Some SNon -> exec f tobranch r (IAddr v x) (eset r v SNon)
 | E_new r v : exec f tobranch r (INew v) (eset r v SNon)
 | E_deref r x : r x = Some SNon -> exec f tobranch r (IDeref x) r
@@ -311,17 +316,19 @@ Inductive exec (f : func) (tobranch : option bool) : env -> instr -> env -> Prop
     | Some (v, cr) => exists sh, call_result_ok f r v cr sh /\ r' = eset r v sh
     end -> exec f tobranch r (ICall fv res) r'
 | E_recv r v x sh : r x = Some SNon -> wf_shape (vi f v) sh = true -> exec f tobranch r (IRecv v x) (eset r v sh)
-| E_makeiface r v x sx : r x = Some sx -> exec f tobranch r (IMakeIface v x) (eset r v (SHold (outer_nil sx)))
-| E_assert_iface r v x b : r x = Some (SHold b) -> exec f tobranch r (ITypeAssert v x true) (eset r v (SHold b))
+| E_makeiface r v x sx : r x = Some sx -> ptr f v = true -> exec f tobranch r (IMakeIface v x) (eset r v (SHold (outer_nil sx)))
+| E_assert_iface r v x b : r x = Some (SHold b) -> ptr f v = true -> exec f tobranch r (ITypeAssert v x true) (eset r v (SHold b))
 | E_assert_conc r v x b : r x = Some (SHold b) ->
     exec f tobranch r (ITypeAssert v x false) (eset r v (held_shape (vi f v) b))
 | E_maplookup_nil r v x : r x = Some SNil -> exec f tobranch r (IMapLookup v x) (eset r v (nil_shape_of (vi f v)))
 | E_maplookup r v x sh : r x = Some SNon -> wf_shape (vi f v) sh = true -> exec f tobranch r (IMapLookup v x) (eset r v sh)
-| E_fieldidx r v x sh : wf_shape (vi f v) sh = true -> exec f tobranch r (IFieldIdx v x) (eset r v sh)
-| E_ts_index r v tag : exec f tobranch r (IExtractTS v tag TSIndex) (eset r v SNon)
+| E_fieldidx r v x sh : wf_shape (vi f v) sh = true -> ptr f x = false (* struct, array or string operand *) ->
+    exec f tobranch r (IFieldIdx v x) (eset r v sh)
+| E_ts_index r v tag : ptr f v = false -> exec f tobranch r (IExtractTS v tag TSIndex) (eset r v SNon)
 | E_ts_default r v tag hasNil sh : r tag = Some sh -> (hasNil = true -> outer_nil sh = false) ->
-    exec f tobranch r (IExtractTS v tag (TSDefault hasNil)) (eset r v sh)
-| E_ts_case_iface r v tag b : r tag = Some (SHold b) -> exec f tobranch r (IExtractTS v tag (TSCase true)) (eset r v (SHold b))
+    exec f tobranch r (IExtractTS v tag (TSDefault hasNil)) (eset r v (if ptr f v then sh else SNon))
+| E_ts_case_iface r v tag b : r tag = Some (SHold b) -> ptr f v = true ->
+    exec f tobranch r (IExtractTS v tag (TSCase true)) (eset r v (SHold b))
 | E_ts_case_conc r v tag b : r tag = Some (SHold b) ->
     exec f tobranch r (IExtractTS v tag (TSCase false)) (eset r v (held_shape (vi f v) b))
 | E_extract_call r v cr sh : call_result_ok f r v cr sh -> exec f tobranch r (IExtractCall v cr) (eset r v sh)
@@ -340,7 +347,8 @@ Definition phi_assign (f : func) (to idx : nat) (r r' : env) : Prop :=
   let phis := leading_phis (b_instrs (blk f to)) in
   exists shs, length shs = length phis /\
     (forall k p, nth_error phis k = Some p -> r (nth idx (snd p) 0) = Some (nth k shs SNon)) /\
-    r' = fold_left (fun acc ps => eset acc (fst (fst ps)) (snd ps)) (combine phis shs) r.
+    r' = fold_left (fun acc ps => eset acc (fst (fst ps)) (if ptr f (fst (fst ps)) then snd ps else SNon))
+                   (combine phis shs) r.
 
 (* taking the CFG edge a -> b *)
 Definition edge_step (f : func) (a b : nat) (r r' : env) : Prop :=
@@ -353,17 +361,19 @@ Inductive reach (f : func) (r0 : env) : nat -> env -> Prop :=
 | R_entry : reach f r0 0 r0
 | R_step a b r r' : reach f r0 a r -> edge_step f a b r r' -> reach f r0 b r'.
 
-(* initial environment: exactly the non-instruction values are defined, with shapes allowed by their kind *)
+(* initial environment: only non-instruction values are defined, with shapes allowed by their kind; the
+   pointer-like ones are those the analysis seeds its entry state with *)
 Definition init_env_ok (f : func) (r0 : env) : Prop :=
   forall v, match r0 v with
             | None => True
             | Some sh =>
                 wf_shape (vi f v) sh = true /\
+                (ptr f v = true -> In v (f_seed f)) /\
                 match vk (vi f v) with
                 | VParam => True
                 | VBuiltin | VFunction | VGlobal => sh = SNon
                 | VNilConst => sh = nil_shape_of (vi f v)
-                | VConst => sh = SNon
+                | VConst => sh = SNon /\ ptr f v = false
                 | VInstr => False
                 end
             end.
